@@ -125,6 +125,53 @@ def main():
     except KeyError as e:
         die(f"enum member {e}")
 
+    # ---- guard shapes of the five service-stage rules, update_state, reset and handle_request (AST) ----
+    def is_logger(st):
+        return (isinstance(st, ast.Expr) and isinstance(st.value, ast.Call) and isinstance(st.value.func, ast.Attribute)
+                and isinstance(st.value.func.value, ast.Name) and st.value.func.value.id == "logger")
+
+    def flat(stmts):
+        """statements as one-line strings, docstrings and logger calls dropped, `if` bodies inlined"""
+        out = []
+        for st in stmts:
+            if is_logger(st) or (isinstance(st, ast.Expr) and isinstance(st.value, ast.Constant)):
+                continue
+            if isinstance(st, ast.If):
+                out.append("if " + ast.unparse(st.test).replace("\n", " ") + " {")
+                out += flat(st.body)
+                if st.orelse:
+                    out.append("} else {")
+                    out += flat(st.orelse)
+                out.append("}")
+            else:
+                out.append(" ".join(ast.unparse(st).split()))
+        return out
+
+    shape_methods = ["default_response_if_session_change", "default_response_if_session_read",
+                     "default_response_if_tester_present", "default_response_if_none", "default_response_if_suppress",
+                     "update_state"]
+    shapes = [("UDSServer." + n, flat(find_method(cls, n).body)) for n in shape_methods]
+    rcls = find_class(tree, "RandomUDSServer")
+    shapes.append(("RandomUDSServer.update_state", flat(find_method(rcls, "update_state").body)))
+    shapes.append(("RNGEcuState.reset", flat(find_method(find_class(tree, "RNGEcuState"), "reset").body)))
+    shapes.append(("UDSServerTransport.handle_request", flat(find_method(find_class(tree, "UDSServerTransport"), "handle_request").body)))
+    shapes.append(("UDSServerTransport.__init__", flat(find_method(find_class(tree, "UDSServerTransport"), "__init__").body)))
+    ecu_src = REPO / "src" / "gallia" / "services" / "uds" / "ecu.py"
+    etree = ast.parse(ecu_src.read_text())
+    ecls = None
+    for n in etree.body:
+        if isinstance(n, ast.ClassDef) and n.name == "ECUState":
+            ecls = n
+    if ecls is None:
+        die(f"class ECUState in {ecu_src}")
+    shapes.append(("ECUState.__init__", flat(find_method(ecls, "__init__").body)))
+    shapes.append(("ECUState.reset", flat(find_method(ecls, "reset").body)))
+    # `from time import time`: the clock handle_request reads
+    time_import = any(isinstance(n, ast.ImportFrom) and n.module == "time" and any(a.name == "time" for a in n.names)
+                      for n in tree.body)
+    if not time_import:
+        die("`from time import time` in server.py")
+
     def pairs(xs):
         return "[" + ", ".join(f"({lean_str(a)}, {lean_str(b)})" for a, b in xs) + "]"
 
@@ -143,6 +190,10 @@ def main():
     body += "def nrc : List (String × Nat) := [" + ", ".join(f"({lean_str(k)}, {v})" for k, v in nrcs) + "]\n\n"
     body += "def sid : List (String × Nat) := [" + ", ".join(f"({lean_str(k)}, {v})" for k, v in sids) + "]\n\n"
     body += f"def activeSessionDid : Nat := {did}\n\n"
+    body += "/-- statements (docstrings / logger calls dropped, one line each) of the service-stage rules, update_state, the\n"
+    body += "    state reset and handle_request -/\n"
+    body += "def shapes : List (String × List String) := [\n" + ",\n".join(
+        f"  ({lean_str(k)}, [" + ", ".join(lean_str(x) for x in v) + "])" for k, v in shapes) + "]\n\n"
     body += "end Gallia.Gen.C13Chain\n"
     write_lean("C13Chain", body)
 
